@@ -269,3 +269,21 @@ PROPS['C15'] = dict(
                   'the measure used for the observations is the hook verif_measure (documented definition computed directly from the state), NOT ProgressMeasure'],
     assumptions=COMMON_ASSUME,
 )
+
+PROPS['C06'] = dict(
+    level='translation_validation',
+    module='SlotVerif.Props.C06',
+    suites=[dict(name='ext', variant='default', shrink=False, quick=dict(count=1200, timeout=900), thorough=dict(count=30000, timeout=3000)),
+            dict(name='ext', variant='checks', shrink=False, quick=dict(count=400, timeout=900), thorough=dict(count=8000, timeout=3000))],
+    rule='corr.extract.cost: e-graphs reached by insertion/union histories (C01 generator: symmetric, redundant, self-referential '
+         'classes) or by arithmetic start terms + unions + 1-3 rewrite iterations with pool rules; three cost functions (AstSize, '
+         'depth-weighted 1+2*sum, per-operator weights where numbers are the most expensive leaves). For every live class: '
+         'get_best_cost must equal the entry of the Lean cost table computed from the dumped state and accepted by the verified '
+         'checker checkTable (classes without finite term: none on both sides); extract under a random renaming of the arguments '
+         'must not panic, the term must be represented in exactly the queried invocation (lookup_rec_expr eq query), its '
+         'independently recomputed cost (cost_rec) must equal the reported best cost, and its free slots must be query arguments or '
+         'fresh slots. non-trivial = some class holds an e-node with a redundant slot, or a non-trivial group; distinct = by hash of the case line',
+    trusted_base=EG_TRUST + ['Extractor::new (priority-queue loop) is not modelled: its table is compared with the checked Lean table per run'],
+    assumptions=COMMON_ASSUME,
+    pending_theorems=['table_attained (every entry is the cost of an extraction tree) — attainment is shown per run by the implementation\'s own extracted term'],
+)
